@@ -144,3 +144,80 @@ Example C15_nonvacuous :
    | _ => False
    end).
 Proof. vm_compute. repeat split. Qed.
+
+(* ---------------------------------------------------------------------------------------- *)
+(* a connection is a SEQUENCE of requests (Model/LimitSeq.v): the limit applied to a request  *)
+(* depends on that request alone                                                              *)
+(* ---------------------------------------------------------------------------------------- *)
+From GPA Require Import LimitSeq LimitSeqProofs.
+
+(* the outcome at position i of any connection equals the outcome of the same request at any
+   position of any other connection: nothing is carried from request to request *)
+Theorem C15_seq_position_independent :
+  forall (mac : bytes -> bytes -> bytes) (kv kg : option bytes) (rs rs' : list conn_request) (i j : nat),
+  nth_error rs i = nth_error rs' j ->
+  nth_error (serve_connection mac kv kg rs) i = nth_error (serve_connection mac kv kg rs') j.
+Proof. exact position_independent. Qed.
+Print Assumptions C15_seq_position_independent.
+
+(* for every sequence and every position: a request over the limit of ITS OWN class is answered
+   4xx and causes no upstream write -- whatever preceded it, host usable or not *)
+Theorem C15_seq_over_limit_refused :
+  forall (mac : bytes -> bytes -> bytes) (kv kg : option bytes) (rs : list conn_request) (i : nat) (r : conn_request),
+  nth_error rs i = Some r ->
+  header_value_ok (cr_now r) = true -> on_relay_path r -> over_own_limit r ->
+  exists s st, nth_error (serve_connection mac kv kg rs) i = Some s /\
+               to_client s = Local st /\ is_4xx st = true /\ upstream_writes s = [].
+Proof. exact seq_over_limit_refused. Qed.
+Print Assumptions C15_seq_over_limit_refused.
+
+(* the host is down or dropped its side before this request: the over-limit body is still refused
+   by the size decision (413 declared / 400 discovered), as the code collects the body before it
+   touches the host *)
+Theorem C15_seq_over_limit_host_down :
+  forall (mac : bytes -> bytes -> bytes) (kv kg : option bytes) (rs : list conn_request) (i : nat) (r : conn_request) (a : audit),
+  nth_error rs i = Some r -> cr_up r = false -> cr_pre r = PreProceed a ->
+  header_value_ok (cr_now r) = true -> over_own_limit r ->
+  exists st, nth_error (serve_connection mac kv kg rs) i = Some (local st) /\ (st = 413 \/ st = 400).
+Proof. exact seq_over_limit_host_down. Qed.
+Print Assumptions C15_seq_over_limit_host_down.
+
+(* for every sequence and every position: a request within the limit of its own class is not
+   refused for its size -- relayed intact when the host is usable ... *)
+Theorem C15_seq_within_limit_relayed :
+  forall (mac : bytes -> bytes -> bytes) (kv kg : option bytes) (rs : list conn_request) (i : nat) (r : conn_request)
+         (a : audit) (out : request),
+  nth_error rs i = Some r -> cr_pre r = PreProceed a -> cr_up r = true -> cr_broken r = false ->
+  total (q_frames (cr_req r)) <= limit_of (q_method (cr_req r)) (q_uri (cr_req r)) ->
+  (cr_declared r = None \/ cr_declared r = Some (total (q_frames (cr_req r)))) ->
+  proxy_forward mac a (cr_now r) kv kg
+    {| c_method := q_method (cr_req r); c_uri := q_uri (cr_req r); c_wire := q_wire (cr_req r);
+       c_body := concat (q_frames (cr_req r)) |} = Forwarded out ->
+  nth_error (serve_connection mac kv kg rs) i = Some {| to_client := FromHost; upstream_writes := [out] |} /\
+  r_body out = concat (q_frames (cr_req r)).
+Proof. exact seq_within_limit_relayed. Qed.
+Print Assumptions C15_seq_within_limit_relayed.
+
+(* ... and answered with the host error (502), not a size refusal, when it is not *)
+Theorem C15_seq_within_limit_host_down :
+  forall (mac : bytes -> bytes -> bytes) (kv kg : option bytes) (rs : list conn_request) (i : nat) (r : conn_request)
+         (a : audit) (out : request),
+  nth_error rs i = Some r -> cr_pre r = PreProceed a -> cr_up r = false -> cr_broken r = false ->
+  total (q_frames (cr_req r)) <= limit_of (q_method (cr_req r)) (q_uri (cr_req r)) ->
+  (cr_declared r = None \/ cr_declared r = Some (total (q_frames (cr_req r)))) ->
+  proxy_forward mac a (cr_now r) kv kg
+    {| c_method := q_method (cr_req r); c_uri := q_uri (cr_req r); c_wire := q_wire (cr_req r);
+       c_body := concat (q_frames (cr_req r)) |} = Forwarded out ->
+  nth_error (serve_connection mac kv kg rs) i = Some (local status_bad_gateway).
+Proof. exact seq_within_limit_host_down. Qed.
+Print Assumptions C15_seq_within_limit_host_down.
+
+(* non-vacuity / contrast: behind an exempt upload a chunked 102401-byte POST /x is refused 400 by the
+   code's per-request layer, while a layer kept from the connection's first request would relay it *)
+Example C15_seq_nonvacuous :
+  exists r s, nth_error sticky_witness 1 = Some r /\ over_own_limit r /\
+              nth_error (serve_connection_sticky zero_mac None None sticky_witness) 1 = Some s /\
+              length (upstream_writes s) = 1%nat /\
+              (exists s', nth_error (serve_connection zero_mac None None sticky_witness) 1 = Some s' /\
+                          upstream_writes s' = [] /\ to_client s' = Local 400).
+Proof. exact sticky_limit_refuted. Qed.
